@@ -263,6 +263,7 @@ pub fn history_ops() -> Vec<crate::history::Op> {
             }));
         }
     }
+    v.extend(crate::props::c08e::history_ops());
     v
 }
 
@@ -459,11 +460,58 @@ pub fn check_sequence(f: &F, inputs: &[&str]) -> Result<(), String> {
     Ok(())
 }
 
+/// length (in characters) of the repeated input of the volume sweep, and its repetitions: 245 x 70 000 > 2^24
+pub const VOLUME_LEN: usize = 70_000;
+pub const VOLUME_REPS: usize = 245;
+
+pub fn volume_input(f: &F, kind: &str) -> String {
+    let c = &f.e.compound;
+    match kind {
+        "long_word" => "w".repeat(VOLUME_LEN),
+        "wide_product" => {
+            let mut s = format!("{}{}", c.brackets.0, c.connecter_product);
+            while s.chars().count() < VOLUME_LEN {
+                s.push_str(c.separator);
+                s.push_str("ab");
+            }
+            s.push_str(c.brackets.1);
+            s
+        }
+        _ => c.brackets.1.repeat(VOLUME_LEN),
+    }
+}
+
+/// `x` repeated `k` times, then the whole quick alphabet, in ONE parse_multi batch: every position must give what
+/// the input gives when parsed alone
+pub fn volume_case(f: &F, kind: &str, k: usize) -> Result<(), String> {
+    let x = volume_input(f, kind);
+    let alpha = alphabet(f);
+    let fresh_x = outcome(&ops::parse_enum(f, &x));
+    let fresh: Vec<Result<CV, ()>> = alpha.iter().map(|(_, s)| outcome(&ops::parse_enum(f, s))).collect();
+    let mut inputs: Vec<&str> = std::iter::repeat(x.as_str()).take(k).collect();
+    inputs.extend(alpha.iter().map(|(_, s)| s.as_str()));
+    let got = quiet_catch(AssertUnwindSafe(|| f.e.parse_multi(inputs.iter().copied()).into_iter().map(|r| outcome(&r.map_err(|e| e.to_string()))).collect::<Vec<_>>()))
+        .map_err(|p| format!("parse_multi over a {kind} of {VOLUME_LEN} characters x {k}, then the alphabet, panics: {p}"))?;
+    if got.len() != inputs.len() {
+        return Err(format!("parse_multi over a {kind} of {VOLUME_LEN} characters x {k}, then the alphabet, returns {} results for {} inputs", got.len(), inputs.len()));
+    }
+    for (p, g) in got.iter().enumerate() {
+        let want = if p < k { &fresh_x } else { &fresh[p - k] };
+        if g != want {
+            let what = if p < k { format!("repetition {p} of the {kind}") } else { format!("{:?}", alpha[p - k].1) };
+            let shown = |o: &Result<CV, ()>| { let t = show_outcome(o); if t.len() > 300 { format!("{}...", t.chars().take(300).collect::<String>()) } else { t } };
+            return Err(format!("parse_multi over a {kind} of {VOLUME_LEN} characters x {k}, then the alphabet: position {p} ({what}, after {} characters) gives {} but parsed alone it gives {}", p.min(k) * VOLUME_LEN, shown(g), shown(want)));
+        }
+    }
+    Ok(())
+}
+
 pub fn replay_case(c: &J) -> Result<(), String> {
     let f = fmts::by_name(c["format"].as_str().unwrap_or("ascii"));
     let inputs: Vec<String> = c["inputs"].as_array().map(|a| a.iter().map(|s| s.as_str().unwrap_or("").to_string()).collect()).unwrap_or_default();
     let refs: Vec<&str> = inputs.iter().map(|s| s.as_str()).collect();
     match c["op"].as_str() {
+        Some("volume") => volume_case(&f, c["kind"].as_str().unwrap_or("long_word"), c["k"].as_u64().unwrap_or(VOLUME_REPS as u64) as usize),
         Some("soak") => {
             let (x, y) = (c["x"].as_str().unwrap_or(""), c["y"].as_str().unwrap_or(""));
             let k = c["k"].as_u64().unwrap_or(1) as usize;
@@ -702,6 +750,31 @@ pub fn run(run: &Run) {
                 }
             });
             run.add_distinct((pairs.len() * SOAK_COUNTS.len() * 2) as u64);
+        }
+        // formats derived from a used format by Clone + edit (see c08e.rs)
+        for edit in crate::props::c08e::EDITS {
+            for which in ["lexical", "enum"] {
+                run.eval(1);
+                run.add_distinct(1);
+                let r = if which == "enum" { crate::props::c08e::case_enum(&f, edit) } else { crate::props::c08e::case_lex(&f, edit) };
+                if let Err(e) = r {
+                    run.violation(&e, json!({"op": "edited_clone", "format": f.name, "edit": edit, "which": which}), &[]);
+                }
+            }
+        }
+        // volume: one parse_multi batch that reads more than 2^24 characters in total before the alphabet is parsed
+        // (a running total - "characters read so far", "bytes allocated so far" - needs volume, not many calls, to
+        // cross a threshold; 2^16 and 2^20 are crossed on the way, and the results in between are checked too)
+        {
+            let kinds: &[&str] = &["long_word", "wide_product", "rejected_run"];
+            for kind in kinds {
+                run.eval(1);
+                run.add_distinct(1);
+                if let Err(e) = volume_case(&f, kind, VOLUME_REPS) {
+                    run.violation(&format!("[{}] {e}", f.name), json!({"op": "volume", "format": f.name, "kind": kind, "k": VOLUME_REPS}), &[]);
+                }
+            }
+            run.bound("volume_characters_per_batch", json!(VOLUME_REPS * VOLUME_LEN));
         }
         // the three public routes agree on every string the formatter prints for a value universe:
         // parse(s), parse_chars(s.chars()), parse_multi([s])[0], parse_multi([s, s])[1]
